@@ -749,6 +749,9 @@ func DelClient(c Client) {
 	delete(g.clients, c.Id())
 	g.timestamp = time.Now()
 	clients := g.getClientsUnlocked(nil)
+	// this must be done before we release the lock, or a client could
+	// join an autolocked group after its last operator has left
+	autoLockKick(g)
 	g.mu.Unlock()
 
 	c.Joined(g.Name(), "leave")
@@ -757,7 +760,6 @@ func DelClient(c Client) {
 			g.Name(), "delete", c.Id(), c.Username(), nil, nil,
 		)
 	}
-	autoLockKick(g)
 }
 
 func (g *Group) GetClients(except Client) []Client {
